@@ -2018,6 +2018,20 @@ func (s *Sim) checkCache() {
 				s.Report(finding(CatCacheDiff, "%s: registered filter (slot %d) %s: Count()=%d (panic %v), the original filter selects %d", b.Name, slot, c.F.String(), cnt, p, len(plain)))
 				return
 			}
+			// the registered filter is itself a Filter: its Matches is the original's, mask by mask
+			masks := []ecs.Mask{{}}
+			for ord := range s.M.Ents {
+				if s.M.Ents[ord].Alive {
+					masks = append(masks, b.W.Mask(b.H[ord]))
+				}
+			}
+			for i := range masks {
+				var mc, mo bool
+				if p := Call(func() { mc, mo = c.Cached.Matches(&masks[i]), c.Flt.Matches(&masks[i]) }); p != nil || mc != mo {
+					s.Report(finding(CatCacheDiff, "%s: registered filter (slot %d) %s: CachedFilter.Matches(%v)=%v, the original filter's Matches=%v (panic %v)", b.Name, slot, c.F.String(), masks[i], mc, mo, p))
+					return
+				}
+			}
 		}
 	}
 }
